@@ -32,6 +32,8 @@ uint64_t drv_vss_decode(void *msg, char *path_dst, void *arr_dst);
 uint64_t drv_vss_pathlen(void *msg);
 /* pack n strings, count them, unpack them again; returns a digest of the reported count and lengths */
 uint64_t drv_vss_strarr(uint8_t *packed, char **strs, const uint16_t *lens, int n, char **dst);
+uint64_t drv_vss_strarr_count(uint8_t *packed, uint16_t len);
+uint64_t drv_generic_field(const uint8_t *desc, int n, uint8_t *pdu, int field, int set, uint64_t v);
 uint64_t drv_vss_strarr_pack(uint8_t *packed, char **strs, const uint16_t *lens, int n, uint16_t stale_len);
 #ifdef __cplusplus
 }
